@@ -221,9 +221,9 @@ func mapPoint(what string) {
 	}
 }
 
-func (m *Map) Load(key any) (any, bool)         { mapPoint("Load"); return m.real.Load(key) }
-func (m *Map) Store(key, value any)             { mapPoint("Store"); m.real.Store(key, value) }
-func (m *Map) Delete(key any)                   { mapPoint("Delete"); m.real.Delete(key) }
+func (m *Map) Load(key any) (any, bool)          { mapPoint("Load"); return m.real.Load(key) }
+func (m *Map) Store(key, value any)              { mapPoint("Store"); m.real.Store(key, value) }
+func (m *Map) Delete(key any)                    { mapPoint("Delete"); m.real.Delete(key) }
 func (m *Map) Range(f func(key, value any) bool) { mapPoint("Range"); m.real.Range(f) }
 func (m *Map) LoadOrStore(key, value any) (any, bool) {
 	mapPoint("LoadOrStore")
